@@ -9,6 +9,7 @@ THEOREMS_DEPEND_ON = ['Gen/AgreeCodec.v']
 COMP = 120
 COMP_MULTI = 121
 COMP_FAN = 123
+COMP_MIX = 126
 KINDS = {'echo': (0, 1), 'device': (1, 1), 'ioport': (1, 0)}      # -> (kind, same_lock) of Model/Conc.v
 
 
@@ -515,6 +516,36 @@ def enc_fan_case(progs, trace):
     return c + list(trace)
 
 
+def enc_mix_case(progs, trace):
+    """any mix of uses: port 0 is the MultiPort, 1 and 2 the sub-ports (Model/ConcMix.v)"""
+    c = [2, len(progs)]
+    for p in progs:
+        c.append(len(p))
+        for op in p:
+            if op[0] == 'send':
+                c += [0, op[-1]] + list(op[1])
+            elif op[0] == 'recv':
+                c += [1, op[-1], op[1]]
+            else:
+                c += [2, op[-1]]
+    return c + list(trace)
+
+
+def replay_mix(rec, runs, progs, mode):
+    """every run of a program without the helper functions is (also) replayed on Model/ConcMix.v"""
+    cache, cases = {}, []
+    for trace, out, fail in runs:
+        c = enc_mix_case(progs, trace)
+        if tuple(c) not in cache:
+            cache[tuple(c)] = (out, None, 'multi-mix:' + mode)
+            cases.append(c)
+    r2 = core.eval_cases(COMP_MIX, cases, lambda c: cache[tuple(c)])
+    rec['dis'] += r2['dis']; rec['ndis'] += r2['ndis']
+    for k, v in r2['dist'].items():
+        rec['dist'][k] = rec['dist'].get(k, 0) + v
+    return rec
+
+
 def dec_case(case):
     kind = {(0, 1): 'echo', (1, 1): 'device', (1, 0): 'ioport'}[(case[1], case[2])]
     n, i, progs = case[3], 4, []
@@ -561,7 +592,7 @@ def job(j):
                     cache[tuple(c)] = (out, fail, 'multi-fan-in:' + mode)
                     cases.append(c)
             rec = core.eval_cases(COMP_MULTI, cases, lambda c: cache[tuple(c)])
-            return (kind, mode, exhausted, len(runs)), rec
+            return (kind, mode, exhausted, len(runs)), replay_mix(rec, runs, progs, mode)
         fan_out = not helper_use and all((op[0] == 'send' and op[-1] == 0) or (op[0] != 'send' and op[-1] >= 1) for p in progs for op in p)
         if fan_out:
             # senders on the MultiPort, receivers on the sub-ports: this is what Model/ConcFan.v describes - replay every run on it
@@ -572,13 +603,15 @@ def job(j):
                     cache[tuple(c)] = (out, fail, 'multi-fan-out:' + mode)
                     cases.append(c)
             rec = core.eval_cases(COMP_FAN, cases, lambda c: cache[tuple(c)])
-            return (kind, mode, exhausted, len(runs)), rec
+            return (kind, mode, exhausted, len(runs)), replay_mix(rec, runs, progs, mode)
         rec = {'n': len(runs), 'dis': [], 'fail': [], 'dist': {'multi:' + mode: len(runs)}, 'hashes': {hash(tuple(r[0])) for r in runs}, 'ndis': 0, 'nfail': 0}
         for trace, _, fail in runs:
             if fail is not None:
                 rec['nfail'] += 1
                 if len(rec['fail']) < 20:
                     rec['fail'].append((fail[0], fail[1], {'component': 'multiport', 'programs': repr(progs), 'schedule': trace}))
+        if not helper_use:
+            replay_mix(rec, runs, progs, mode)
         return (kind, mode, exhausted, len(runs)), rec
     if mode == 'explore':
         runs, exhausted = explore(kind, progs, arg[0], arg[1], arg[2])
@@ -661,6 +694,26 @@ def run(out):
         [[('msend', m1)], [('mrecv',)], [('recv', 0, 1)]],                                                # the helper functions on one shared list of ports
         [[('msend', m1), ('msend', m2)], [('mrecv',), ('mrecv',)]],
     ]
+    # any mix of uses at once: every thread sends on, receives from and iterates over the MultiPort and its sub-ports as it likes
+    fresh = [2000]
+
+    def fresh_msg():
+        fresh[0] += 1
+        return [1, 15, fresh[0] % 128, 1 + (fresh[0] // 128) % 127]
+    for _ in range(5 if quick else 60):
+        progs = []
+        for _t in range(rng.randrange(2, 5)):
+            p = []
+            for _o in range(rng.randrange(1, 4)):
+                r = rng.random()
+                if r < 0.45:
+                    p.append(('send', fresh_msg(), rng.randrange(3)))
+                elif r < 0.8:
+                    p.append(('recv', rng.choice([0, 0, 1]), rng.randrange(3)))
+                else:
+                    p.append(('iterp', rng.randrange(3)))
+            progs.append(p)
+        multi_progs.append(progs)
     for progs in multi_progs:
         # the three-in-a-row program needs two preemptions (the sender held back after two sends, a poller between its two looks at the queue)
         deep = len(progs[0]) == 3
@@ -679,7 +732,7 @@ def run(out):
                 '(depth-first, stateless), for %d larger ones seeded random and priority schedules; each executed schedule is replayed on the model (same thread ids, same '
                 'steps) and the per-thread results, the final queue, the device buffer and the number of sleeps are compared; the oracle checks on the real run: no exception, '
                 'nothing lost / duplicated / invented, per-sender order, received objects are copies. MultiPort (fan-in from and fan-out to two EchoPorts, every lock and deque '
-                'scheduled): the same oracle on the real run; pure fan-in runs are replayed on ConcMulti.v, pure fan-out runs on ConcFan.v, mixed use and the helper functions multi_send / multi_receive on a shared list of ports (polled in an order other than the list order) are not modelled. Non-trivial: every run; distinct by schedule.'
+                'scheduled): the same oracle on the real run; pure fan-in runs are replayed on ConcMulti.v, pure fan-out runs on ConcFan.v, and EVERY run without the helper functions - fan-in, fan-out and any mix of uses, random programs of 2-4 threads using all three ports included - on ConcMix.v; the helper functions multi_send / multi_receive on a shared list of ports (polled in an order other than the list order) are not modelled. Non-trivial: every run; distinct by schedule.'
                 % (len(small), 2 if quick else 3, len(more)))
     from props import c10_copy
     ncopy = c10_copy.run(out, rng)
